@@ -47,6 +47,9 @@ def owners(o):
         # the wrapper proofs call cache.load/dump/archived through the contract that the real methods
         # are proved to refine: that obligation belongs to every property proved over the contract
         return CACHE_USERS if o.name.endswith('/refines_contract') else {'C08'}
+    if o.name.endswith('raises.state_unchanged[stats]'):
+        # C15: the counters move only for calls that complete
+        return {'C16', 'C15'}
     if o.prop == 'C07':
         # C02's at-most-once claim (across evictions and purges) is a lemma over C07's clauses
         return {'C07', 'C02'}
